@@ -103,14 +103,32 @@ Proof.
     end.
 Qed.
 
+Lemma clamp_in_box : forall x L U, L <= U ->
+  L <= clampA qops x L U /\ clampA qops x L U <= U.
+Proof.
+  intros x L U LU. unfold clampA, maxA, minA. cbn [o_ltb qops].
+  qcase x L.
+  - qcase U L; split; lra.
+  - qcase U x; split; lra.
+Qed.
+
+(* a feasible coordinate is not moved by the clamp (Leibniz equality: no arithmetic is performed) *)
+Lemma clamp_id : forall x L U, L <= x -> x <= U -> clampA qops x L U = x.
+Proof.
+  intros x L U Lx xU. unfold clampA, maxA, minA. cbn [o_ltb qops].
+  qcase x L; [lra|]. qcase U x; [lra|]. reflexivity.
+Qed.
+
 Lemma solve_2d_edges_in_box : forall ai aj gi gj Qii Qij Qjj Li Ui Lj Uj, Li <= Ui -> Lj <= Uj ->
   inbox Li Ui Lj Uj (solve_2d_edges qops ai aj gi gj Qii Qij Qjj Li Ui Lj Uj).
 Proof.
   intros ai aj gi gj Qii Qij Qjj Li Ui Lj Uj HI HJ. unfold solve_2d_edges.
   pose proof (edges2d_in_box ai aj gi gj Qii Qij Qjj Li Ui Lj Uj HI HJ) as HB.
   set (es := edges2d qops ai aj gi gj Qii Qij Qjj Li Ui Lj Uj) in *.
-  destruct (best_edge_in ai aj gi gj Qii Qij Qjj es (o_zero qops) (hd (ai, aj) es)) as [E|E].
-  - rewrite E. apply HB. unfold es, edges2d. cbn [hd]. left; reflexivity.
+  destruct (best_edge_in ai aj gi gj Qii Qij Qjj es (o_zero qops)
+              (clampA qops ai Li Ui, clampA qops aj Lj Uj)) as [E|E].
+  - rewrite E. unfold inbox. cbn [fst snd].
+    destruct (clamp_in_box ai Li Ui HI), (clamp_in_box aj Lj Uj HJ). repeat split; assumption.
   - apply HB; exact E.
 Qed.
 
@@ -139,14 +157,13 @@ Lemma gain2_q : forall gi gj Qii Qij Qjj mui muj,
   mui * gi + muj * gj - (1#2) * (Qii * mui * mui + 2 * Qij * mui * muj + Qjj * muj * muj).
 Proof. intros. unfold gain2. cbn [o_add o_sub o_mul o_half qops]. ring. Qed.
 
-Lemma solve_2d_free_gain_nonneg : forall gi gj Qii Qij Qjj, 0 <= Qii ->
-  let det := Qii * Qjj - Qij * Qij in qthr < det ->
+Lemma free_gain_nonneg_pos : forall gi gj Qii Qij Qjj, 0 <= Qii ->
+  let det := Qii * Qjj - Qij * Qij in 0 < det ->
   let mui := (Qjj * gi - Qij * gj) / det in
   let muj := (Qii * gj - Qij * gi) / det in
   0 <= gain2 qops gi gj Qii Qij Qjj mui muj.
 Proof.
-  intros gi gj Qii Qij Qjj HQ det Hd mui muj. pose proof qthr_pos as TP.
-  assert (Dp : 0 < det) by lra.
+  intros gi gj Qii Qij Qjj HQ det Dp mui muj.
   assert (Qp : 0 < Qii).
   { destruct (Qlt_le_dec 0 Qii) as [|Hle]; [assumption|exfalso].
     assert (Z0 : Qii == 0) by lra.
@@ -166,6 +183,17 @@ Proof.
     assert (0 < Qii * (- N)) by (apply Qmult_lt_0_compat; lra).
     lra. }
   apply Qle_shift_div_l; lra.
+Qed.
+
+(* absolute-threshold form (still used by solveQuadratic2DTriangle, C16) *)
+Lemma solve_2d_free_gain_nonneg : forall gi gj Qii Qij Qjj, 0 <= Qii ->
+  let det := Qii * Qjj - Qij * Qij in qthr < det ->
+  let mui := (Qjj * gi - Qij * gj) / det in
+  let muj := (Qii * gj - Qij * gi) / det in
+  0 <= gain2 qops gi gj Qii Qij Qjj mui muj.
+Proof.
+  intros gi gj Qii Qij Qjj HQ det Hd. pose proof qthr_pos as TP.
+  apply free_gain_nonneg_pos; [assumption|]. fold det. lra.
 Qed.
 
 (* ---------------------------------------------------------------- 6 *)
@@ -204,12 +232,12 @@ Lemma solve_2d_edges_gain : forall ai aj gi gj Qii Qij Qjj Li Ui Lj Uj,
              gain2 qops gi gj Qii Qij Qjj (fst c - ai) (snd c - aj) in
   let r := solve_2d_edges qops ai aj gi gj Qii Qij Qjj Li Ui Lj Uj in
   (In r es /\ 0 < G r /\ forall c, In c es -> G c <= G r) \/
-  ((forall c, In c es -> G c <= 0) /\ r = hd (ai, aj) es).
+  ((forall c, In c es -> G c <= 0) /\ r = (clampA qops ai Li Ui, clampA qops aj Lj Uj)).
 Proof.
   intros ai aj gi gj Qii Qij Qjj Li Ui Lj Uj es G r.
-  pose proof (best_edge_char ai aj gi gj Qii Qij Qjj es 0 (hd (ai, aj) es)) as H.
+  pose proof (best_edge_char ai aj gi gj Qii Qij Qjj es 0 (clampA qops ai Li Ui, clampA qops aj Lj Uj)) as H.
   cbv zeta in H. change (G2 ai aj gi gj Qii Qij Qjj) with G in H.
-  change (best_edge qops ai aj gi gj Qii Qij Qjj es 0 (hd (ai, aj) es)) with r in H.
+  change (best_edge qops ai aj gi gj Qii Qij Qjj es 0 (clampA qops ai Li Ui, clampA qops aj Lj Uj)) with r in H.
   destruct H as [H|[H1 H2]]; [left; exact H | right; split; assumption].
 Qed.
 
@@ -219,12 +247,13 @@ Lemma gain2_compat : forall gi gj Qii Qij Qjj mui mui' muj muj',
   gain2 qops gi gj Qii Qij Qjj mui muj == gain2 qops gi gj Qii Qij Qjj mui' muj'.
 Proof. intros. rewrite !gain2_q. rewrite H, H0. reflexivity. Qed.
 
-(* the condition under which solveQuadratic2DBox returns the unconstrained optimum *)
+(* the condition under which solveQuadratic2DBox returns the unconstrained optimum
+   (relative rank test  detQ > 1e-12 * Qii * Qjj  since /repo commit bc5f2886) *)
 Definition free2d (ai aj gi gj Qii Qij Qjj Li Ui Lj Uj : QArith_base.Q) : Prop :=
   let det := Qii * Qjj - Qij * Qij in
   let mui := (Qjj * gi - Qij * gj) / det in
   let muj := (Qii * gj - Qij * gi) / det in
-  qthr < det /\ Li < ai + mui /\ Lj < aj + muj /\ ai + mui < Ui /\ aj + muj < Uj.
+  qthr * Qii * Qjj < det /\ Li < ai + mui /\ Lj < aj + muj /\ ai + mui < Ui /\ aj + muj < Uj.
 
 Lemma solve_2d_cases : forall ai aj gi gj Qii Qij Qjj Li Ui Lj Uj,
   let det := Qii * Qjj - Qij * Qij in
@@ -251,85 +280,87 @@ Proof.
     rewrite F1, F2, F3, F4, F5 in B. discriminate B.
 Qed.
 
-(* The 2-D step does not decrease the objective when
-   - the unconstrained optimum is returned (needs 0 <= Qii besides det > 1e-12), or
-   - the current point lies on edge 0 (ai == Li), is feasible in j, and Qjj is not in (0,1e-12), or
-   - some edge candidate has strictly positive gain.
-   The full statement (for every feasible (ai,aj) and positive semidefinite Q) is FALSE:
-   see box2d_gain_refuted below. *)
-Theorem box2d_gain_nonneg_partial : forall ai aj gi gj Qii Qij Qjj Li Ui Lj Uj,
-  let es := edges2d qops ai aj gi gj Qii Qij Qjj Li Ui Lj Uj in
-  let G := fun c : QArith_base.Q * QArith_base.Q =>
-             gain2 qops gi gj Qii Qij Qjj (fst c - ai) (snd c - aj) in
+(* FULL statement (holds for the repaired code, /repo commit bc5f2886): for every current point in the
+   box, every gradient and every 2x2 block with non-negative diagonal (in particular every positive
+   semi-definite block) the 2-D step never decreases the objective.  Before the repair this was FALSE
+   (finding F3; the old counterexample is the regression example below). *)
+Theorem box2d_gain_nonneg : forall ai aj gi gj Qii Qij Qjj Li Ui Lj Uj,
+  Li <= ai -> ai <= Ui -> Lj <= aj -> aj <= Uj -> 0 <= Qii -> 0 <= Qjj ->
   let r := solve_2d qops ai aj gi gj Qii Qij Qjj Li Ui Lj Uj in
-  (free2d ai aj gi gj Qii Qij Qjj Li Ui Lj Uj -> 0 <= Qii) ->
-  (free2d ai aj gi gj Qii Qij Qjj Li Ui Lj Uj \/
-   (ai == Li /\ Lj <= aj /\ aj <= Uj /\ (qthr <= Qjj \/ Qjj == 0)) \/
-   (exists c, In c es /\ 0 < G c)) ->
   0 <= gain2 qops gi gj Qii Qij Qjj (fst r - ai) (snd r - aj).
 Proof.
-  intros ai aj gi gj Qii Qij Qjj Li Ui Lj Uj es G r HQ HD.
-  change (0 <= G r).
+  intros ai aj gi gj Qii Qij Qjj Li Ui Lj Uj La aU Lb bU HQi HQj r.
+  set (G := fun c : QArith_base.Q * QArith_base.Q =>
+             gain2 qops gi gj Qii Qij Qjj (fst c - ai) (snd c - aj)).
+  change (0 <= G r). pose proof qthr_pos as TP.
   destruct (solve_2d_cases ai aj gi gj Qii Qij Qjj Li Ui Lj Uj) as [[F E]|[NF E]];
     fold r in E; rewrite E; clear E.
   - (* free optimum *)
     unfold G. cbn [fst snd].
-    pose proof (solve_2d_free_gain_nonneg gi gj Qii Qij Qjj (HQ F)) as P. cbv zeta in P.
-    destruct F as (F1 & _). specialize (P F1).
+    destruct F as (F1 & _).
+    assert (Dp : 0 < Qii * Qjj - Qij * Qij).
+    { assert (0 <= qthr * Qii * Qjj).
+      { rewrite <- Qmult_assoc. apply Qmult_le_0_compat; [lra|]. apply Qmult_le_0_compat; assumption. }
+      lra. }
+    pose proof (free_gain_nonneg_pos gi gj Qii Qij Qjj HQi) as P. cbv zeta in P. specialize (P Dp).
     rewrite (gain2_compat gi gj Qii Qij Qjj _ ((Qjj * gi - Qij * gj) / (Qii * Qjj - Qij * Qij))
                           _ ((Qii * gj - Qij * gi) / (Qii * Qjj - Qij * Qij))); [exact P| |]; ring.
-  - (* edge candidates *)
-    destruct HD as [F|HD]; [contradiction|].
+  - (* edge candidates: a candidate is only taken when its gain is positive, else the point is kept *)
     pose proof (solve_2d_edges_gain ai aj gi gj Qii Qij Qjj Li Ui Lj Uj) as SG.
-    cbv zeta in SG. fold es in SG. fold G in SG.
-    set (r' := solve_2d_edges qops ai aj gi gj Qii Qij Qjj Li Ui Lj Uj) in *.
-    destruct HD as [(Ea & La & Ua & HJ)|(c & Ic & Pc)].
-    + set (se := solve_edge qops aj (gj - Qij * (Li - ai)) Qjj Lj Uj).
-      assert (C0 : 0 <= G (Li, se)).
-      { pose proof (solve_edge_gain_nonneg aj (gj - Qij * (Li - ai)) Qjj Lj Uj La Ua HJ) as P.
-        fold se in P.
-        assert (Z : Li - ai == 0) by lra.
-        assert (Eg : gj - Qij * (Li - ai) == gj) by (rewrite Z; ring).
-        rewrite (gain1_g_compat _ _ _ _ Eg) in P.
-        unfold G. cbn [fst snd].
-        rewrite (gain2_compat gi gj Qii Qij Qjj (Li - ai) 0 (se - aj) (se - aj) Z (Qeq_refl _)).
-        rewrite gain2_q. unfold gain1 in P. set (m := se - aj) in *. lra. }
-      assert (I0 : In (Li, se) es) by (left; reflexivity).
-      assert (H0 : hd (ai, aj) es = (Li, se)) by reflexivity.
-      destruct SG as [(I & P & A)|(A & Eh)].
-      * apply Qlt_le_weak; exact P.
-      * rewrite Eh, H0. exact C0.
-    + destruct SG as [(I & P & A)|(A & Eh)].
-      * apply Qlt_le_weak; exact P.
-      * specialize (A c Ic). exfalso. lra.
+    cbv zeta in SG. fold G in SG.
+    destruct SG as [(I & P & A)|(A & Eh)].
+    + apply Qlt_le_weak; exact P.
+    + rewrite Eh, (clamp_id ai Li Ui La aU), (clamp_id aj Lj Uj Lb bU).
+      unfold G. cbn [fst snd]. rewrite gain2_q. ring_simplify. apply Qle_refl.
 Qed.
 
-(* the hypotheses of each disjunct are satisfiable *)
-Example box2d_partial_free_sat : free2d 1 1 1 1 1 0 1 0 10 0 10 /\ 0 <= 1.
+(* in the edge branch the result is moreover at least as good as every edge candidate *)
+Theorem box2d_edges_best : forall ai aj gi gj Qii Qij Qjj Li Ui Lj Uj,
+  Li <= ai -> ai <= Ui -> Lj <= aj -> aj <= Uj ->
+  ~ free2d ai aj gi gj Qii Qij Qjj Li Ui Lj Uj ->
+  let G := fun c : QArith_base.Q * QArith_base.Q =>
+             gain2 qops gi gj Qii Qij Qjj (fst c - ai) (snd c - aj) in
+  let r := solve_2d qops ai aj gi gj Qii Qij Qjj Li Ui Lj Uj in
+  forall c, In c (edges2d qops ai aj gi gj Qii Qij Qjj Li Ui Lj Uj) -> G c <= G r.
+Proof.
+  intros ai aj gi gj Qii Qij Qjj Li Ui Lj Uj La aU Lb bU NF G r c Ic.
+  destruct (solve_2d_cases ai aj gi gj Qii Qij Qjj Li Ui Lj Uj) as [[F E]|[_ E]]; [contradiction|].
+  fold r in E. rewrite E.
+  pose proof (solve_2d_edges_gain ai aj gi gj Qii Qij Qjj Li Ui Lj Uj) as SG.
+  cbv zeta in SG. fold G in SG.
+  destruct SG as [(I & P & A)|(A & Eh)]; [apply A; exact Ic|].
+  rewrite Eh, (clamp_id ai Li Ui La aU), (clamp_id aj Lj Uj Lb bU).
+  assert (Z : G (ai, aj) == 0) by (unfold G; cbn [fst snd]; rewrite gain2_q; ring).
+  rewrite Z. apply A; exact Ic.
+Qed.
+
+(* the hypotheses are satisfiable, in both branches *)
+Example box2d_free_sat : free2d 1 1 1 1 1 0 1 0 10 0 10 /\ 0 <= 1.
 Proof. unfold free2d. repeat split; qdec. Qed.
-Example box2d_partial_edge0_sat : 0 == 0 /\ 0 <= 1 /\ 1 <= 10 /\ (qthr <= 1 \/ 1 == 0).
-Proof. repeat split; try qdec. left; qdec. Qed.
+Example box2d_edge_sat : ~ free2d 1 1 1 1 1 0 1 0 (3#2) 0 10.
+Proof. unfold free2d. intros (_ & _ & _ & H & _). revert H. qdec. Qed.
 
 (* ---------------------------------------------------------------- 8 *)
-(* Counterexample to unconditional monotonicity of solveQuadratic2DBox: Q positive definite with
-   determinant exactly 1e-12 (not > 1e-12), interior current point (1,1), unconstrained optimum (2,2)
-   interior to the box [0,10]^2.  The free branch is skipped, every edge candidate has negative gain,
-   maxIndex stays 0 and the code moves to solution[0] although its gain is negative. *)
-Theorem box2d_gain_refuted : exists ai aj gi gj Qii Qij Qjj Li Ui Lj Uj,
-  0 < Qii /\ 0 < Qjj /\ 0 < Qii * Qjj - Qij * Qij /\ Qii * Qjj - Qij * Qij <= qthr /\
-  Li < ai /\ ai < Ui /\ Lj < aj /\ aj < Uj /\
-  (let r := solve_2d qops ai aj gi gj Qii Qij Qjj Li Ui Lj Uj in
-   gain2 qops gi gj Qii Qij Qjj (fst r - ai) (snd r - aj) < 0).
-Proof.
-  exists 1, 1, (1 # 1000000), (1 # 1000000), (1 # 1000000), 0, (1 # 1000000), 0, 10, 0, 10.
-  repeat split; qdec.
-Qed.
+(* Regression for finding F3 (repaired by /repo commit bc5f2886).  The former counterexample: Q positive
+   definite with determinant exactly 1e-12, interior current point (1,1), unconstrained optimum (2,2)
+   interior to [0,10]^2.  The old code skipped the free branch (absolute test det > 1e-12) and moved to
+   edge candidate 0 although every edge candidate had negative gain.  The repaired code takes the free
+   optimum; the gain is strictly positive. *)
+Example box2d_F3_witness_repaired :
+  let r := solve_2d qops 1 1 (1 # 1000000) (1 # 1000000) (1 # 1000000) 0 (1 # 1000000) 0 10 0 10 in
+  fst r == 2 /\ snd r == 2 /\ 0 < gain2 qops (1 # 1000000) (1 # 1000000) (1 # 1000000) 0 (1 # 1000000) (fst r - 1) (snd r - 1).
+Proof. repeat split; qdec. Qed.
+
+(* the same block with the box cut so that the optimum is outside: no edge improves => point kept *)
+Example box2d_keep_point :
+  solve_2d qops 1 1 0 0 1 0 1 0 10 0 10 = (1, 1).
+Proof. vm_compute. reflexivity. Qed.
 
 Print Assumptions solve_edge_gain_nonneg.
 Print Assumptions solve_2d_free_gain_nonneg.
 Print Assumptions solve_2d_edges_gain.
-Print Assumptions box2d_gain_nonneg_partial.
-Print Assumptions box2d_gain_refuted.
+Print Assumptions box2d_gain_nonneg.
+Print Assumptions box2d_edges_best.
 Print Assumptions solve_edge_in_box.
 Print Assumptions solve_edge_gain_refuted.
 Print Assumptions solve_2d_in_box.
